@@ -342,6 +342,13 @@ func ringSchemas() map[string]string {
 	return out
 }
 
+// deepSchema: containers nested ten deep - generated lines indented further than anything the repository's own schemas
+// reach (tables indexed by depth, per-depth variable names). Used by the race pass (cold start) and the map-order pass.
+const deepSchema = `struct DeepLeaf { int32 a; string b; }
+struct Deep { int32[][][][][][][][][][] a; map[string, map[int32, map[string, map[guid, string[][][][][][]]]]] m; }
+message DeepM { 1 -> DeepLeaf[][][][][][][][][] a; 2 -> map[string, map[string, map[string, map[string, map[string, int32[][][]]]]]] m; }
+`
+
 func writeSchemas() {
 	w := func(rel, text string) string {
 		p := filepath.Join(workDir, "schemas", rel)
@@ -361,6 +368,7 @@ func writeSchemas() {
 	w("maps/impb.bop", b)
 	schemaPaths["builtin:noimports"] = w("noimports/main.bop", noImports)
 	schemaPaths["builtin:invalid-ring"] = w("invalid-ring/main.bop", structRing)
+	schemaPaths["builtin:deep"] = w("deep/main.bop", deepSchema)
 	for name, text := range ringSchemas() {
 		schemaPaths["ring:"+name] = w(name+"/main.bop", text)
 	}
@@ -556,7 +564,7 @@ func main() {
 	}
 
 	// ---- plan
-	quickExplore, thoroughExplore := 105*time.Second, 26*time.Minute
+	quickExplore, thoroughExplore := 135*time.Second, 26*time.Minute
 	deadline := start.Add(quickExplore)
 	if thorough {
 		deadline = start.Add(thoroughExplore)
@@ -647,7 +655,7 @@ func main() {
 	})
 
 	// map orders
-	allSchemas := append([]string{schemaPaths["builtin:maps"], small, schemaPaths["builtin:noimports"], schemaPaths["builtin:invalid-ring"]}, repoSchemas()...)
+	allSchemas := append([]string{schemaPaths["builtin:maps"], small, schemaPaths["builtin:noimports"], schemaPaths["builtin:invalid-ring"], schemaPaths["builtin:deep"]}, repoSchemas()...)
 	var cheap []*unit
 	allOps := append(append([]string{}, alphabet...), extraOps...)
 	// one-deviation pass: deviation values 0..7 cover every start of a map of up to 8 entries, 0..15 of up to 13
@@ -685,6 +693,10 @@ func main() {
 		for _, op := range []string{"Generate-separate", "Generate-combined-allflags"} {
 			cheap = append(cheap, &unit{Mode: "maporder", Schemas: []string{sp}, Ops: []string{op}, Rs: 1, Dev: devVals, DevCap: genCap, pass: "maporder"})
 		}
+	}
+	// imported files edited between two calls
+	for _, sp := range []string{small, schemaPaths["builtin:maps"]} {
+		cheap = append(cheap, &unit{Mode: "importedit", Schema: sp, Ops: allOps, pass: "importedit"})
 	}
 	// repetition / aliasing
 	maxLen := 2
@@ -727,11 +739,14 @@ func main() {
 		raceUnits = append(raceUnits, &unit{Mode: "race", Schema: small, Ops: gen, Iters: iters, pass: "race", race: true})
 	}
 	maps := schemaPaths["builtin:maps"]
+	deep := schemaPaths["builtin:deep"]
+	raceUnits = append(raceUnits, &unit{Mode: "race", Schema: deep, Ops: []string{"Generate-separate", "Generate-separate", "Generate-combined", "Generate-private-ptr"}, Iters: iters, pass: "race", race: true},
+		&unit{Mode: "race", Schema: deep, Ops: alphabet, Iters: iters, pass: "race", race: true})
 	raceUnits = append(raceUnits, &unit{Mode: "race", Schema: maps, Ops: alphabet, Iters: iters, pass: "race", race: true},
 		&unit{Mode: "race", Schema: maps, Ops: []string{"Generate-separate", "Generate-combined"}, Iters: iters, pass: "race", race: true})
 
 	// ---- run: exploration first (it alone has a deadline), then the map-order / repetition units and the race units
-	all := append(append(append([]*unit{}, units...), cheap...), raceUnits...)
+	all := append(append(append([]*unit{}, units...), raceUnits...), cheap...)
 	results := make([]*result, len(all))
 	var firstErr error
 	var emu sync.Mutex
@@ -792,7 +807,7 @@ func main() {
 	violating := map[string]int{}
 	samples := 0
 	totalEval := 0
-	mapOrders, sequences, raceIters, raceReports := 0, 0, 0, 0
+	mapOrders, sequences, raceIters, raceReports, importEdits := 0, 0, 0, 0, 0
 	for _, r := range results {
 		if r == nil {
 			continue
@@ -847,6 +862,9 @@ func main() {
 		case "maporder":
 			totalEval += r.Evaluations
 			mapOrders += r.Evaluations
+		case "importedit":
+			totalEval += r.Evaluations
+			importEdits += r.Schedules
 		case "repeat":
 			totalEval += r.Evaluations
 			sequences += r.Schedules
@@ -945,6 +963,8 @@ func main() {
 		"positions_per_call_Validate": map[bool]string{true: "all", false: fmt.Sprintf("first %d", devCap)}[devCap == 0], "positions_per_call_Generate": fmt.Sprintf("first %d", genCap),
 		"what": "every uniform start 0..7 combined with ONE map iteration of the call (parse included) starting elsewhere: Validate on every schema and on a family of 162 invalid struct rings (must be rejected under every order), Generate on the harness's schemas"}
 	run.Coverage["sequences"] = sequences
+	run.Coverage["import_edit_sequences"] = importEdits
+	run.Coverage["import_edit_meaning"] = "generate, edit the imported files (same size with the modification time put back / same size / grown), generate again in the same process: must equal a fresh process that only saw the edited files"
 	run.Coverage["sequence_max_len"] = maxLen
 	run.Coverage["race_iterations"] = raceIters
 	run.Coverage["race_reports_parsed"] = raceReports
@@ -1058,6 +1078,9 @@ func replay(path string) int {
 		}
 		fmt.Println("replayed signature not observed (the race pass is dynamic: absence is not proof)")
 		return 0
+	case "importedit":
+		u.Mode = "importedit"
+		os.Setenv("C14_REPLAY", "1")
 	default:
 		die("replay: unknown case kind %q", sub)
 	}
